@@ -59,7 +59,7 @@ CLAIMED = {
          "PARTIAL: the quantifier over compilers/levels/standards/evaluation time is outside Lean and is SAMPLED: value legs (quick: g++ c++17 -O2, clang++ c++20 -O2, sanitizer, abacus; thorough: 2 compilers x 4 levels x 3 standards x abacus) compared with the one model, "
          "and the constant-evaluation leg (350-4000 static_asserts derived from the model compiled under g++/clang++ x c++17+abacus/c++20/c++2b). C08_sqrt_algos: |abacus - std::sqrt| <= 1 for ALL v in [0, 2^48) (from C13_abacus_real and C13_std_acc).", "UB-freedom theorems + configuration matrix correspondence + constant-evaluation leg"),
  "C05": ("proof", "Over the exact IEEE-754 model (Model/Float.lean) for BOTH formats and EVERY bit pattern (C05_to_float: all 2^32, C05_to_double: all 2^64, via ofBits_inFmt): finite |v| < 2^31-1 => result r is not NaN and |r - v*65536| <= 1/2 + (|v|*65536+1/2)*2^-p, "
-         "and r is exactly round-half-away-from-zero whenever |v|*65536+1/2 is representable in the source type; otherwise (>= 2^31-1, inf, NaN) => NaN. C05_toDouble: exact for every |raw| <= 2^53. C05_toFp: result = RN_F(raw)/65536 exactly, "
+         "and r is exactly round-half-away-from-zero whenever |v|*65536+1/2 is representable in the source type; otherwise (>= 2^31-1, inf, NaN) => NaN. C05_toDouble: exact for every |raw| <= 2^53. C05_toFp_rn: the result has the value of the model's single round-to-nearest-even of the exact quotient raw/65536 (rounding commutes with the scaling, roundRat_scale); C05_toFp: = RN_F(raw)/65536 exactly, "
          "relative error <= 2^-p, a value of the format, for every int64 raw and both formats. C05_roundtrip_partial: fixed->double->fixed is the identity for |x| < 2^31-1; C05_sliver: NaN for 2^31-1 <= |x| (the property text contradicts itself there, see DESIGN.md). "
          "Rounding theory of the model proved from scratch (Real/FloatTheory, FloatOps, FloatConv). The model is tied to the hardware/compilers by bit-exact correspondence over stratified float/double bit patterns (thorough: 4099-stride sweep of all float patterns).", "rounding theory of the IEEE model (Mathlib reals, zpow) + bit-exact correspondence"),
  "C11": ("proof", "C11_atan for EVERY finite argument (all 2^64-3 raw values, by analytic composition, not enumeration): |atan(v) - Real.arctan| <= 5e-5, atan(-v) = -atan(v), |atan v| <= fixpidiv2; "
